@@ -1562,7 +1562,11 @@ class RelationshipProperty(
 
         impl = state.manager[key].impl
         x = impl.get(state, dict_, passive=passive)
-        if x is LoaderCallableStatus.PASSIVE_NO_RESULT or x is None:
+        if (
+            x is LoaderCallableStatus.PASSIVE_NO_RESULT
+            or x is LoaderCallableStatus.NO_VALUE
+            or x is None
+        ):
             return []
         elif is_has_collection_adapter(impl):
             return [
